@@ -53,7 +53,8 @@ func runUnlikely(c Case, e *env) []Event {
 		if w, ok := m["words"].(float64); ok {
 			k.words = int(w)
 		}
-		k.tag = pickS(r, "div", "section", "div", "ul")
+		// mostly containers; sometimes the marked element is itself one an embed extractor recognises
+		k.tag = pickS(r, "div", "section", "div", "ul", "div", "section", "img")
 		word := unlikelyWords[r.Intn(len(unlikelyWords))]
 		switch k.how {
 		case "id":
@@ -99,6 +100,9 @@ func runUnlikely(c Case, e *env) []Event {
 		if marks[i].tag == "ul" {
 			inner = "<li>" + inner + "</li>"
 		}
+		if marks[i].tag == "img" {
+			inner = fmt.Sprintf(` src="/i/zqmk%d.png" alt=""`, g.marker())
+		}
 		marks[i].body = inner
 		marks[i].inl = g.words(4)
 	}
@@ -108,6 +112,15 @@ func runUnlikely(c Case, e *env) []Event {
 		body := m.body
 		if m.tag == "span" {
 			body = m.inl
+		}
+		if m.tag == "img" {
+			switch variant {
+			case "D":
+				return ""
+			case "R":
+				return "<img" + m.attrR + m.body + ">"
+			}
+			return "<img" + m.attrP + m.body + ">"
 		}
 		switch variant {
 		case "D":
